@@ -298,7 +298,12 @@ def _fam_lscr_ifs(n):
     st = b"\x41\x01\x95\x00\x07\x41\x01\x52\x00"                  # if 1 then set x = 1 end if
     return "lscr", lc.build_lscr([dict(name=0, args=[], locals=[1], code=st * n + b"\x01")]), {"lnam": lnam.hex()}
 
-FAMILIES_SCALING = dict(riff=(_fam_riff, 300), mmap=(_fam_mmap, 300), cas=(_fam_cas, 2000), key=(_fam_key, 500), locate=(_fam_locate, 500),
+def _fam_lscr_nested(n):
+    import lscr_common as lc
+    lnam = lc.build_lnam([b"test", b"x"])
+    return "lscr", lc.build_lscr([dict(name=0, args=[], locals=[1], code=b"\x41\x01" + b"\x09" * n + b"\x52\x00\x01")]), {"lnam": lnam.hex()}
+
+FAMILIES_SCALING = dict(lscr_nested=(_fam_lscr_nested, 100), riff=(_fam_riff, 300), mmap=(_fam_mmap, 300), cas=(_fam_cas, 2000), key=(_fam_key, 500), locate=(_fam_locate, 500),
                         lscr_straight=(_fam_lscr_straight, 250), lscr_loops=(_fam_lscr_loops, 120), lscr_ifs=(_fam_lscr_ifs, 150))
 SCALING_MAX_RATIO = 2.6      # doubling the input may at most (a bit more than) double the executed lines
 
@@ -478,7 +483,9 @@ def oracle(case, io):
             return f"scaling family {sp['family']}: doubling the input ({sp['n']} -> {sp['n2']} bytes) multiplies executed lines by {r:.2f} ({m['lines']} -> {m['lines2']}): work is not bounded by a fixed multiple of the input length"
         return None
     dec = declared(sp["decoder"], bytes.fromhex("" if sp["hex"] == "-" else sp["hex"]), sp["aux"])
-    if m["outcome"] not in ("ok", "error"):
+    if m["outcome"] == "recursion" and n >= 400:
+        pass     # CPython's own recursion limit reached by nesting proportional to the input: an ordinary, bounded error
+    elif m["outcome"] not in ("ok", "error"):
         return f"{sp['decoder']}: outcome {m['outcome']} on a {n}-byte input (lines={m['lines']}, peak={m['peak']})"
     if m["lines"] > A_LINES * (n + dec) + C_LINES:
         return f"{sp['decoder']}: {m['lines']} executed lines on a {n}-byte input declaring {dec} output bytes exceeds {A_LINES}*(len+declared)+{C_LINES}"
